@@ -300,9 +300,8 @@ def scanTok (inString : Bool) (ch : UInt8) (r : Bytes) : Scan :=
     else single
   else if ch == 124 then (if peek r == 61 then op [124, 61] else single)
   else if ch == 63 then
-    match r with
-    | 47 :: 47 :: _ => op [63, 47, 47]
-    | _ => single
+    -- `if l.peek() == '/' { l.offset++; if l.peek() == '/' { … return tokDestAltOp }; l.offset-- }`
+    (if peek r == 47 && peek (r.drop 1) == 47 then op [63, 47, 47] else single)
   else if ch == 43 then (if peek r == 61 then op [43, 61] else single)
   else if ch == 45 then (if peek r == 61 then op [45, 61] else single)
   else if ch == 42 then (if peek r == 61 then op [42, 61] else single)
